@@ -1,14 +1,15 @@
 #!/bin/bash
-# Derive harness/go.mod from /repo/go.mod (same requires/replaces + replace istio => /repo).
+# Derive <harness>/go.mod from <repo>/go.mod (same requires/replaces + replace istio => <repo>).
 set -e
-H=/verif/harness
+R=${1:-/repo}
+H=${2:-/verif/harness}
 tmp=$(mktemp)
-sed -e 's#^module .*#module verif/harness#' /repo/go.mod > $tmp
+sed -e 's#^module .*#module verif/harness#' $R/go.mod > $tmp
 cat >> $tmp <<EOM
 
 require istio.io/istio v0.0.0
-replace istio.io/istio => /repo
+replace istio.io/istio => $R
 EOM
 if ! cmp -s $tmp $H/go.mod 2>/dev/null; then cp $tmp $H/go.mod; fi
 rm -f $tmp
-if ! cmp -s /repo/go.sum $H/go.sum 2>/dev/null; then cp /repo/go.sum $H/go.sum; fi
+if ! cmp -s $R/go.sum $H/go.sum 2>/dev/null; then cp $R/go.sum $H/go.sum; fi
